@@ -1,7 +1,9 @@
 From BT Require Import Base.Util Base.Float Generated.Consts Model.RTree Model.BBIFile Model.BigWigWrite Model.BBIRead
   Proofs.RTreeAbs Proofs.RTreeBuild Proofs.RTreeCodec Proofs.RTreeLayout
   Proofs.BigWigQuery Proofs.ZoomLoop Proofs.ZoomInv Proofs.ZoomThms Proofs.ZoomBwLevels Proofs.ZoomSections
-  Proofs.ZoomQuery Proofs.ZoomOld.
+  Proofs.ZoomQuery Proofs.ZoomOld Proofs.ZoomExact Proofs.ZoomSorted
+  Proofs.BigWigFile Proofs.BigWigFileRoundTrip Proofs.BigWigFileThms Proofs.ZoomFile.
+From Coq Require Import Sorting.Sorted.
 From BT Require Properties.C07.
 Local Open Scope N_scope.
 Check (C07.C07_inner_loop_terminates : forall fp ips size chrom st cur has_next, 1 <= size ->
@@ -72,3 +74,26 @@ Check (C07.C07_minmax_refuted_before_fix :
             = Ok (R, None)
     /\ map (fun r => (z_start r, z_end r, cov r, su_items (z_sum r), bits_of_f64 (su_max (z_sum r)))) R
        = [(0, 10, 5, 2, bits_of_f64 (f32_of_bits hundred)); (10, 15, 5, 1, bits_of_f64 (f32_of_bits hundred))]).
+Check (C07.C07_stats_exact : forall ips size chrom len vals st, 1 <= size -> wf_vals len vals ->
+  Forall (fun v => finite (v_val v)) vals ->
+  zoom_chrom exact ips size chrom vals zstate0 = Ok st ->
+  Forall (fun r => exact_stats r (contribs (z_start r) (z_end r) vals)) (concat (zs_out st))).
+Check (C07.C07_sections_sorted : forall fp ips size chrom len vals sds pos, 1 <= size -> wf_vals len vals ->
+  zoom_sections fp ips size chrom vals = Ok sds -> sorted_starts (map sect_span (place pos sds))).
+Check (C07.C07_chrom_ordered : forall fp ips size chrom len vals st, 1 <= size -> wf_vals len vals ->
+  zoom_chrom fp ips size chrom vals zstate0 = Ok st -> ordered size chrom 0 (concat (zs_out st))).
+Check (C07.C07_level_sections_sorted : forall fp size (chs : list (N * list (list zrec))) sds pos,
+  StronglySorted N.lt (map fst chs) ->
+  Forall (fun c => ordered size (fst c) 0 (concat (snd c))) chs ->
+  mapM (encode_zoom_section fp) (flat_map snd chs) = Ok sds ->
+  sorted_starts (map sect_span (place pos sds))).
+Check (C07.C07_file_levels_increasing : forall fp o sizes inp bs,
+  opts_ok o -> input_ok sizes inp -> Nlen bs < U64 ->
+  Forall (fun z => z < U32) (zoom_sizes_single o) ->
+  bw_write fp o sizes inp = Ok bs ->
+  exists i, read_info bs = Ok i /\ inc_from 0 (map zh_res (i_zooms i)) /\ Nlen (i_zooms i) <= MAX_ZOOM_LEVELS
+            /\ incl (map zh_res (i_zooms i)) (zoom_sizes_single o)).
+Check (C07.C07_file_levels_increasing_two_pass : forall fp o sizes inp bs,
+  opts_ok o -> input_ok sizes inp -> Nlen bs < U64 -> manual_u32 o ->
+  bw_write_multipass fp o sizes inp = Ok bs ->
+  exists i, read_info bs = Ok i /\ inc_from 0 (map zh_res (i_zooms i)) /\ Nlen (i_zooms i) <= MAX_ZOOM_LEVELS).
